@@ -47,6 +47,12 @@ def plan(tier):
                                            model=model, loss='sq', kind='incremental', conv=None)
                                 pairs = deep and d == 2 and n == 1 and st in ('Batch', 'Geometric') and im == 'joint'
                                 tasks.append((cfg, 3, 2 if pairs else bound))
+    # the imputer built on a storage object of its own (not the explainer's)
+    for expl in ('sage', 'pfi'):
+        for dyn in (False, True):
+            cfg = dict(expl=expl, dynamic=dyn, alpha=F(1, 4), n_inner=1, d=2, storage='Batch', imputer='joint-own',
+                       names='str', lbib=False, model='scalar', loss='sq', kind='incremental', conv=None)
+            tasks.append((cfg, 3, bound))
     # NumPy-array valued model outputs (in-place arithmetic on aliased values)
     for expl in ('sage', 'pfi'):
         for dyn in (False, True):
